@@ -247,6 +247,18 @@ Fixpoint tokens_of_pieces (o : N) (docs : list doc) (ps : list piece) : list rto
 
 Definition items_of_pieces (ps : list piece) : list lexitem := map LTok (tokens_of_pieces 0 [] ps).
 
+(** The one condition that concerns the lexer's keyword-before-colon artefact: an identifier piece
+    whose text is spelled like a keyword is directly followed by the colon piece. (Decidable; vacuous
+    when no identifier is spelled like a keyword.) *)
+Definition kw_text (t : str) : bool := match lookup_str t (keywords impl_cfg) with Some _ => true | None => false end.
+Fixpoint kwcb (ps : list piece) : bool :=
+  match ps with
+  | [] => true
+  | PcTok TIdent t :: r =>
+      (negb (kw_text t) || match r with PcTok _ (c :: _) :: _ => (c =? c_colon)%N | _ => false end) && kwcb r
+  | _ :: r => kwcb r
+  end.
+
 (* ------------------------------------------------------------------ well-formed trees *)
 
 Definition tok_at (k : token) (sp : span) (text : str) : rtoken :=
